@@ -12,7 +12,7 @@ from jv.props import common as C
 
 ID = "C09"
 LEVEL = "exploration"
-BUDGET = {"quick": 2000, "thorough": 32000}
+BUDGET = {"quick": 3200, "thorough": 40000}
 RULE = (
     "case = generated scenario x schedule x up to 3 user commands fired by the schedule (try-submit-jobs, "
     "show-status -n, cancel-jobs) x optional resubmit-jobs (generated flags) after completion, driven to completion "
